@@ -969,3 +969,10 @@ Proof.
       apply (S_list "x9" mp_s [Cm [] mp_s None] [] None (EId "x9") mp_s); [repeat constructor|apply S_hole]. }
   vm_compute. repeat split. intros H; discriminate H.
 Qed.
+
+(* the hypothesis [nocc x s] of C02_let_program is implied by [nocc x C_s] (s is a subterm of C[s]); it is kept in
+   the statements above only because the several-occurrences form (sctxs, possibly zero steps) needs it *)
+Theorem C02_sctx_nocc : forall x s a b, sctx x s a b -> nocc x b = true -> nocc x s = true.
+Proof. exact sctx_nocc. Qed.
+Check C02_sctx_nocc : forall x s a b, sctx x s a b -> nocc x b = true -> nocc x s = true.
+Print Assumptions C02_sctx_nocc.
